@@ -150,7 +150,7 @@ def r2_no_clear_copy(run):
               "the main assertion can be encrypted without having been moved "
               "out of the clear part", rf.loc())
     emp = [nd for nd in rcfg.by_kind("stmt") if isinstance(nd.ast, ast.Assign)
-           and unparse(nd.ast.targets[0]) == "_assertion.advice.assertion" and
+           and unparse(nd.ast.targets[0]).endswith(".advice.assertion") and
            unparse(nd.ast.value) == "[]"]
     enc_adv = [nd for nd, c in rcfg.call_nodes("_encrypt_assertion")
                if unparse(arg_of(c, 0)) == "encrypt_cert_advice"]
